@@ -530,8 +530,10 @@ func main() {
 		"per program 8 scripts over {step,next,finish,continue} (4 of shape (s|n|f)* c*, 3 unrestricted, 1 unrestricted started with ir.Eval instead of ir.Debug), script exhausted => continue; "+
 		"one evaluated case = one (program, script) run; non-trivial when the run had >= 2 debugger callbacks and the trace has >= 2 call depths; distinct by SHA-256 of program text + script")
 	nProg := 70
+	perShard := 40
 	if a.Thorough() {
 		nProg = 2000
+		perShard = 64 // <= 32 case shards in the thorough tier
 	}
 	if a.N > 0 {
 		nProg = a.N
@@ -539,7 +541,7 @@ func main() {
 	corpus := startCorpus()
 
 	wp, wd := newWorld(false), newWorld(true)
-	cw := vh.NewCases(a, "From Coq Require Import List ZArith Bool.\nFrom Verif Require Import C19.Model.\nImport ListNotations.\nOpen Scope Z_scope.", "case", "mismatches", 40)
+	cw := vh.NewCases(a, "From Coq Require Import List ZArith Bool.\nFrom Verif Require Import C19.Model.\nImport ListNotations.\nOpen Scope Z_scope.", "case", "mismatches", perShard)
 	wdg := vh.NewWatchdog(rep, 60*time.Second)
 	idx := 0
 	discarded := 0
